@@ -4,6 +4,7 @@ import (
 	"bytes"
 	"crypto/x509"
 	"encoding/base64"
+	"encoding/hex"
 	"encoding/pem"
 	"errors"
 	"fmt"
@@ -12,6 +13,8 @@ import (
 	"strings"
 	"sync"
 	"testing"
+
+	_ "embed"
 
 	"golang.org/x/crypto/ssh"
 	"pgregory.net/rapid"
@@ -161,6 +164,10 @@ func c39Inner(k *tkey, comment string) []byte {
 func c39Build(rt *rapid.T, kp *keyPool, k *tkey, anomaly string) *c39File {
 	f := &c39File{keyType: k.typ, anomaly: anomaly, trueBlob: k.blob}
 	f.comment = pick(rt, "comment", c39Comments)
+	if rapid.IntRange(0, 2).Draw(rt, "commentlen") == 0 {
+		// every padding residue of both block sizes
+		f.comment = strings.Repeat("c", rapid.IntRange(0, 40).Draw(rt, "ncomment"))
+	}
 	o := otherKey(rt, kp, k, k.typ)
 	pf := &rk.PrivFile{Magic: rk.PrivMagic, Cipher: "none", KDF: "none", NumKeys: 1, PubBlobs: [][]byte{k.blob}, Block: 8}
 	chk := uint32(rapid.Uint32().Draw(rt, "check"))
@@ -857,6 +864,199 @@ func c39MarshalAlignment(t *testing.T, c *ev.Collector, kp *keyPool) {
 	c.Exhaustive("MarshalPrivateKeyWithPassphrase x 9 consecutive comment lengths (block alignment)", 9)
 }
 
+//go:embed testdata/rsa16384.pem
+var rsa16384PEM []byte
+
+// bcrypt_pbkdf("boundary passphrase", "0123456789abcdef", rounds, 48) computed
+// once with the reference implementation (about half a minute each): lets the
+// check build files at the parser's round cap without paying for the slow
+// reference KDF in every run.  The thorough tier re-derives the 2048-round
+// value through an ssh-keygen -a 2048 file decoded by the reference.
+var c39BoundaryKDF = map[int]string{
+	2047: "e30206d6289b545930e3efa20e733ff0b86a502de16ba0b184c067febf50c108ee212577c09a5b5205c34d8ba2d0a7ee",
+	2048: "b10d8801781012df693b7e335fa7913b76b400bc6ea023ba3237c5a211f8665363f347bb7429849c135b99b1a2c6685b",
+}
+
+const c39BoundaryPass = "boundary passphrase"
+
+var c39BoundarySalt = []byte("0123456789abcdef")
+
+// c39BoundaryFile builds a conforming encrypted (or, for rounds the harness has
+// no key material for, plaintext-bodied) file with the given KDF options.
+func c39BoundaryFile(k *tkey, cipherName string, salt []byte, rounds uint32, comment string, kdfKey []byte) []byte {
+	pf := &rk.PrivFile{Magic: rk.PrivMagic, Cipher: cipherName, KDF: "bcrypt", KDFOpts: rk.BcryptOpts(salt, rounds), NumKeys: 1,
+		PubBlobs: [][]byte{k.blob}, Check1: 0x5eed5eed, Check2: 0x5eed5eed, Inner: c39Inner(k, comment), Block: 16}
+	section := pf.PlainSection()
+	if kdfKey != nil {
+		enc, err := rk.CryptSectionKey(cipherName, kdfKey, section, false)
+		if err != nil {
+			panic(err)
+		}
+		section = enc
+	}
+	return pf.Encode(section)
+}
+
+// c39Boundaries puts the parser's own limits into the domain: KDF rounds at
+// 1, 2, 16, cap-1, cap (must parse) and 0, cap+1, huge (must be refused), salt
+// lengths, RSA modulus / prime / exponent caps at exactly the limit, very
+// long comments.  The expensive items are spread over the shards.
+func c39Boundaries(t *testing.T, c *ev.Collector, kp *keyPool) {
+	d := newDRBG(seedBytes("c39bound"))
+	ed := kp.byType[rk.TEd25519][1]
+	ec := kp.byType[rk.TEC384][1]
+	mustParse := func(what string, der, pass []byte, k *tkey) {
+		key, err := c39Parse(rk.PEM(der), pass)
+		if err != nil {
+			c39Violation(t, c, "a conforming key file at a parser boundary (%s) is rejected: %v", what, err)
+		}
+		if cerr := c39Consistency(key, k.blob, d); cerr != nil {
+			c39Violation(t, c, "key file at a parser boundary (%s): %v", what, cerr)
+		}
+		c.Case(true, "bound|"+what, "file:boundary", "boundary:"+what)
+	}
+	mustFail := func(what string, der, pass []byte) {
+		key, err := c39Parse(rk.PEM(der), pass)
+		if isPanic(err) {
+			c39Violation(t, c, "parser panicked on %s: %v", what, err)
+		}
+		if err == nil {
+			c39Violation(t, c, "key file with %s is accepted (%T)", what, key)
+		}
+		c.Case(true, "bound|"+what, "file:boundary", "boundary:"+what)
+	}
+	n := 0
+	item := func(i int, f func()) {
+		if ev.Mine(i) {
+			f()
+			n++
+		}
+	}
+	pass := []byte(c39BoundaryPass)
+	// rounds at the cap: right passphrase parses, wrong passphrase is IncorrectPasswordError
+	item(0, func() {
+		der := c39BoundaryFile(ed, "aes256-ctr", c39BoundarySalt, 2048, "cap", unhexS(c39BoundaryKDF[2048]))
+		mustParse("kdf-rounds=2048(cap)", der, pass, ed)
+	})
+	item(7, func() { // index 7: another shard than the right-passphrase derivation
+		der := c39BoundaryFile(ed, "aes256-ctr", c39BoundarySalt, 2048, "cap", unhexS(c39BoundaryKDF[2048]))
+		if _, werr := c39Parse(rk.PEM(der), []byte("not the passphrase")); werr != x509.IncorrectPasswordError {
+			c39Violation(t, c, "wrong passphrase on a key file with 2048 KDF rounds yields %v, want x509.IncorrectPasswordError", werr)
+		}
+		c.Case(true, "bound|kdf-rounds=2048-wrong-pass", "file:boundary", "boundary:kdf-rounds=2048-wrong-passphrase")
+	})
+	// the same boundary written by ssh-keygen itself
+	item(1, func() {
+		kg := sshKeygen()
+		if kg == "" {
+			c.Assumption("ssh-keygen not available: ssh-keygen -a 2048 boundary file skipped")
+			return
+		}
+		dir := scratch(t, "c39b")
+		f := filepath.Join(dir, "a2048")
+		if _, se, err := runTool(dir, nil, kg, "-q", "-t", "ed25519", "-a", "2048", "-N", c39BoundaryPass, "-C", "a2048", "-f", f); err != nil {
+			c39ToolFail(t, c, "ssh-keygen -a 2048", err, se)
+		}
+		pemBytes := mustRead(t, f)
+		pubBlob, err := base64.StdEncoding.DecodeString(strings.Fields(string(mustRead(t, f+".pub")))[1])
+		if err != nil {
+			c39ToolFail(t, c, ".pub not base64", err, nil)
+		}
+		key, err := c39Parse(pemBytes, pass)
+		if err != nil {
+			c39Violation(t, c, "key file written by ssh-keygen -a 2048 (the parser's maximum round count) is rejected: %v\n%s", err, pemBytes)
+		}
+		if cerr := c39Consistency(key, pubBlob, d); cerr != nil {
+			c39Violation(t, c, "key parsed from an ssh-keygen -a 2048 file: %v", cerr)
+		}
+		if ev.Thorough() {
+			blk, _ := pem.Decode(pemBytes)
+			if pp, derr := rk.DecodePriv(blk.Bytes, pass); derr != nil || !bytes.Equal(pp.PubBlob, pubBlob) || pp.Rounds != 2048 {
+				c.Inconclusive(fmt.Sprintf("reference bcrypt_pbkdf at 2048 rounds disagrees with ssh-keygen: %v", derr))
+				t.Fatalf("VF-INCONCLUSIVE: reference KDF at 2048 rounds: %v", derr)
+			}
+		}
+		c.Case(true, "bound|ssh-keygen -a 2048", "file:boundary", "boundary:ssh-keygen-a-2048")
+	})
+	// cap-1 and the cheap refusals / acceptances
+	item(2, func() {
+		mustParse("kdf-rounds=2047(cap-1)", c39BoundaryFile(ec, "aes256-cbc", c39BoundarySalt, 2047, "cap-1", unhexS(c39BoundaryKDF[2047])), pass, ec)
+		for _, r := range []uint32{16} {
+			mustParse(fmt.Sprintf("kdf-rounds=%d", r), c39BoundaryFile(ed, "aes256-ctr", c39BoundarySalt, r, "", rk.BcryptPBKDF(pass, c39BoundarySalt, int(r), 48)), pass, ed)
+		}
+		for _, r := range []uint32{2049, 0, 4096, 1 << 31, 1<<32 - 1} {
+			mustFail(fmt.Sprintf("kdf-rounds=%d", r), c39BoundaryFile(ed, "aes256-ctr", c39BoundarySalt, r, "", nil), pass)
+		}
+		mustFail("kdf-salt-empty", c39BoundaryFile(ed, "aes256-ctr", []byte{}, 1, "", nil), pass)
+		for _, sl := range []int{1, 15, 17, 64, 255} {
+			salt := bytes.Repeat([]byte{0xa7}, sl)
+			mustParse(fmt.Sprintf("kdf-salt-len=%d", sl), c39BoundaryFile(ed, "aes256-ctr", salt, 1, "s", rk.BcryptPBKDF(pass, salt, 1, 48)), pass, ed)
+		}
+		// long comments
+		for _, cl := range []int{255, 256, 70000} {
+			pf := &rk.PrivFile{Magic: rk.PrivMagic, Cipher: "none", KDF: "none", NumKeys: 1, PubBlobs: [][]byte{ed.blob}, Check1: 7, Check2: 7, Inner: c39Inner(ed, strings.Repeat("k", cl)), Block: 8}
+			mustParse(fmt.Sprintf("comment-len=%d", cl), pf.Encode(pf.PlainSection()), nil, ed)
+		}
+		// RSA public exponent of exactly 24 bits (accepted) and 25 bits (refused by the documented limit, or consistent)
+		r := kp.byType[rk.TRSA][0].rsa
+		p1, q1 := new(big.Int).Sub(r.Primes[0], big.NewInt(1)), new(big.Int).Sub(r.Primes[1], big.NewInt(1))
+		phi := new(big.Int).Mul(p1, q1)
+		for _, e0 := range []int64{1<<24 - 1, 1<<24 + 1} {
+			e := big.NewInt(e0)
+			for new(big.Int).GCD(nil, nil, e, phi).Cmp(big.NewInt(1)) != 0 {
+				e.Sub(e, big.NewInt(2))
+			}
+			dd := new(big.Int).ModInverse(e, phi)
+			blob := (&rk.PubKey{Type: rk.TRSA, E: e, N: r.N}).Blob()
+			pf := &rk.PrivFile{Magic: rk.PrivMagic, Cipher: "none", KDF: "none", NumKeys: 1, PubBlobs: [][]byte{blob}, Check1: 9, Check2: 9,
+				Inner: rk.InnerRSA(r.N, e, dd, r.Precomputed.Qinv, r.Primes[0], r.Primes[1], "e"), Block: 8}
+			der := pf.Encode(pf.PlainSection())
+			what := fmt.Sprintf("rsa-e-bits=%d", e.BitLen())
+			if e.BitLen() <= 24 {
+				key, err := c39Parse(rk.PEM(der), nil)
+				if err != nil {
+					c39Violation(t, c, "RSA key file with a %d-bit public exponent %d (within the documented 24-bit limit) is rejected: %v", e.BitLen(), e, err)
+				}
+				if cerr := c39Consistency(key, blob, d); cerr != nil {
+					c39Violation(t, c, "RSA key file with exponent %d: %v", e, cerr)
+				}
+			} else if key, err := c39Parse(rk.PEM(der), nil); err == nil {
+				if cerr := c39Consistency(key, blob, d); cerr != nil {
+					c39Violation(t, c, "RSA key file with exponent %d accepted but: %v", e, cerr)
+				}
+			}
+			c.Case(true, "bound|"+what, "file:boundary", "boundary:"+what)
+		}
+	})
+	// RSA modulus and primes at exactly the documented caps (16384 / 8192 bits)
+	item(3, func() {
+		blk, _ := pem.Decode(rsa16384PEM)
+		priv, err := x509.ParsePKCS1PrivateKey(blk.Bytes)
+		if err != nil {
+			c.Inconclusive("embedded 16384-bit RSA key: " + err.Error())
+			t.Fatal(err)
+		}
+		priv.Precompute()
+		k := mkRSA(priv, "rsa16384")
+		pf := &rk.PrivFile{Magic: rk.PrivMagic, Cipher: "none", KDF: "none", NumKeys: 1, PubBlobs: [][]byte{k.blob}, Check1: 3, Check2: 3, Inner: c39Inner(k, "max"), Block: 8}
+		mustParse(fmt.Sprintf("rsa-modulus-bits=%d,prime-bits=%d/%d", priv.N.BitLen(), priv.Primes[0].BitLen(), priv.Primes[1].BitLen()), pf.Encode(pf.PlainSection()), nil, k)
+		// one past the modulus cap (not a valid key either way): refused
+		big1 := new(big.Int).Add(priv.N, new(big.Int).Lsh(big.NewInt(1), 16384))
+		pf2 := *pf
+		pf2.Inner = rk.InnerRSA(big1, big.NewInt(int64(priv.E)), priv.D, priv.Precomputed.Qinv, priv.Primes[0], priv.Primes[1], "")
+		mustFail("rsa-modulus-bits=16385", pf2.Encode(pf2.PlainSection()), nil)
+	})
+	c.Exhaustive("parser boundary files (KDF rounds 0/16/2047/2048/2049/huge, salt lengths, comment lengths, RSA e/n/prime caps, ssh-keygen -a 2048)", n)
+}
+
+func unhexS(s string) []byte {
+	b, err := hex.DecodeString(s)
+	if err != nil {
+		panic(err)
+	}
+	return b
+}
+
 func TestC39(t *testing.T) {
 	c := ev.New("C39", "non-trivial: the file was written by ssh-keygen, or handed to ssh-keygen, or is a constructed file with an inconsistency/corruption or encryption; distinct = (source, key type, anomaly, cipher, result)")
 	defer c.Flush(t)
@@ -868,6 +1068,7 @@ func TestC39(t *testing.T) {
 	}
 	kp := pool()
 	c39MarshalAlignment(t, c, kp)
+	c39Boundaries(t, c, kp)
 	c39Tool(t, c, kp)
 	rapid.Check(t, func(rt *rapid.T) {
 		if rapid.IntRange(0, 9).Draw(rt, "mode") == 0 {
